@@ -294,17 +294,10 @@ impl<'a> KeyNode<'a> {
                     tag,
                     raw_tag,
                     value,
-                    style,
                     ..
                 }) = events.first()
                 {
-                    // The parser reports an omitted node as the plain scalar `~`, but as an
-                    // empty plain scalar when it carries an anchor: both are the same (null) key.
-                    let value = if value.is_empty() && matches!(style, ScalarStyle::Plain) {
-                        "~".to_owned()
-                    } else {
-                        value.to_string()
-                    };
+                    let value = value.to_string();
                     Cow::Owned(
                         KeyFingerprint::Scalar {
                             tag: *tag,
